@@ -951,6 +951,21 @@ func genProxyBuiltinTokens(repo string) (string, error) {
 	} else {
 		ok = false
 	}
+	// the stream-filter manager builds one factory per configured ENTRY (no factory cache keyed by the filter type)
+	if _, sc, err := ParseGoFile(repo, "pkg/streamfilter/config.go"); err == nil {
+		if cf := FindFunc(sc, "", "createStreamFilterFactoryFromConfig"); cf != nil {
+			ast.Inspect(cf.Body, func(n ast.Node) bool {
+				if _, isMap := n.(*ast.MapType); isMap {
+					ok = false
+				}
+				return true
+			})
+		} else {
+			ok = false
+		}
+	} else {
+		ok = false
+	}
 	fmt.Fprintf(&b, "Definition proxy_bsrc : bsrc := {| pl_fresh := %v; pl_replaces := %v; fi_fresh := %v; fi_replaces := %v |}.\n", plf, plr, fif, fir)
 	fmt.Fprintf(&b, "Definition ProxyBuiltinTokens_translator_ok := %v.\n", ok)
 	return b.String(), nil
